@@ -126,6 +126,8 @@ class World:
 
     # ---- paths
     def abs(self, p):
+        if p.startswith("$SIDE/"):  # programs the user has installed: not part of the project tree
+            return os.path.join(self.side, p[6:])
         return p if os.path.isabs(p) else os.path.normpath(os.path.join(self.root, p))
 
     def rel(self, p):
@@ -288,7 +290,7 @@ class World:
             "PYTHONDONTWRITEBYTECODE": "1",
         }
         if extra:
-            env.update(extra)
+            env.update({k: v.replace("$ROOT", self.root).replace("$SIDE", self.side) for k, v in extra.items()})
         return env
 
     def invoke(self, op, readdir_seed=None, trace=True):
